@@ -417,20 +417,25 @@ def run(ctx):
     ctx.check(ok, "FORM", f"{cf.qualname} / FORM / fit receives x and y of every vertex, in that order", ctx.where(cf),
               "xs = [v.x for v in vertices], ys = [v.y for v in vertices] handed to the fit", f"circle fit called as {bad}")
     ctx.count("FORM", "circle-fit call sites in calculate_circle_center", len(fits), 3)
-    rn = [n for n in ast.walk(cf.node) if isinstance(n, ast.Return) and n.value is not None]
-    ok = False
-    if len(rn) == 1:
-        v = rn[0].value
-        if isinstance(v, ast.Tuple) and len(v.elts) == 2 and all(isinstance(x, ast.Subscript) and isinstance(x.value, ast.Name) for x in v.elts):
-            ok = v.elts[0].value.id == v.elts[1].value.id and [rules.const_value(x.slice) for x in v.elts] == [0, 1]
-        elif isinstance(v, ast.Name):
-            ok = True
+    # the returned pair, branch by branch, is (F[0], F[1]) of one and the same fit F (or the two coordinate means of the fallback)
+    ret = scf.ret()
+    if ret[0] != "seq" or len(ret[1]) != 2:
+        raise AnalysisError(f"{ctx.where(cf)}: return shape of calculate_circle_center not understood: {T.show(T.alpha(ret))[:160]}")
+    bad_pairs = []
+
+    def pairwise(x, y):
+        if x[0] == "phi" and y[0] == "phi" and x[1] == y[1]:
+            pairwise(x[2], y[2])
+            pairwise(x[3], y[3])
+        elif x[0] == "idx" and y[0] == "idx" and x[1] == y[1] and x[2] == T.num(0) and y[2] == T.num(1):
+            pass
+        elif T.alpha(x) == T.alpha(T.call("mean", (xs,))) and T.alpha(y) == T.alpha(T.call("mean", (ys,))):
+            pass
         else:
-            raise AnalysisError(f"{ctx.where(cf, rn[0])}: return shape of calculate_circle_center not understood")
-    else:
-        raise AnalysisError("calculate_circle_center: expected exactly one return statement")
-    ctx.check(ok, "FORM", f"{cf.qualname} / FORM / returns (centre[0], centre[1]) of one fit", ctx.where(cf, rn[0]),
-              "x and y of the same fitted centre", f"returned centre is `{ast.unparse(rn[0].value)}`")
+            bad_pairs.append((T.show(T.alpha(x))[:80], T.show(T.alpha(y))[:80]))
+    pairwise(ret[1][0], ret[1][1])
+    ctx.check(not bad_pairs, "FORM", f"{cf.qualname} / FORM / returns (centre[0], centre[1]) of one fit", ctx.where(cf),
+              "x and y of the same fitted centre", f"returned centre pairs {bad_pairs[:2]}")
 
 
 _P, _E, _V = "forsys/fmatrix.py", "forsys/edge.py", "forsys/virtual_edges.py"
